@@ -246,13 +246,14 @@ def run_property(pid, jobs, tier, seed, level='other', technique='', assumptions
             if len(samples) < 8:
                 samples.append(dict(job=job.name, case=jsonable(s)))
         problems = []
-        if not r['exhaustive'] and not r.get('violations'):
+        unknown_viol = [v for v in r['violations'] if not match_known(pid, v['key'], known)]
+        if not r['exhaustive'] and not unknown_viol:
             problems.append('not exhaustive within budget %ss' % job.budget_s)
         if r['errors']:
             problems.append('errors: ' + ' || '.join(r['errors'][:3]))
         if r['diverged']:
             problems.append('concolic divergence: ' + ' || '.join(r['diverged'][:3]))
-        if r['missing_events'] and not r.get('violations'):
+        if r['missing_events'] and not unknown_viol:
             problems.append('reachability witnesses never reached: %s' % r['missing_events'])
         jv = []
         for v in r['violations']:
